@@ -765,6 +765,7 @@ func (ed Editor) JustifyOpts(width int, opts Options) Editor {
 		}, opts)
 		return ed
 	} else {
+		originalOpts := ed.Options
 		if !opts.JustifyLastLine {
 			ed = ed.WithOptions(opts).LinesTo(-1)
 		}
@@ -774,7 +775,9 @@ func (ed Editor) JustifyOpts(width int, opts Options) Editor {
 		}, opts)
 
 		if !opts.JustifyLastLine {
-			ed = ed.Commit()
+			// the committed Editor is the one the Options were temporarily set
+			// on; give it back the Options it came with
+			ed = ed.Commit().WithOptions(originalOpts)
 		}
 
 		return ed
